@@ -175,6 +175,9 @@ func (its *mapSnapshot) putCommonWithTimedType(key string, newOne timedType) (o 
 	}
 
 	if oldOne.getTime().Compare(newOne.getTime()) < 0 {
+		if oldOne.isTomb() { // a removed key becomes live again
+			its.Size++
+		}
 		its.Map[key] = newOne
 		return oldOne, newOne
 	}
